@@ -290,7 +290,10 @@ class ControlPipe(object):
         self.transport.lost = True
         if reason is None:
             reason = failure.Failure(error.ConnectionDone())
-        self.proto.connectionLost(reason)
+        try:
+            self.proto.connectionLost(reason)
+        except Exception as e:
+            self.escaped.append(e)
 
 
 def bootstrapped_pipe(handler=None, **kw):
